@@ -28,12 +28,18 @@ def fieldOf? : Sexp → Option FieldD
   | .list [.atom "field", id, ty, .str tyToks, .str vis, .list attrs, ilo, ihi, lo, hi] => do
       pure { ident := ← optStr? id, ty := fieldTy ty, tyToks, vis, attrs := ← attrs.mapM attrOf?,
              identSpan := mkSpan? ilo ihi, span := ← mkSpan? lo hi }
+  | .list [.atom "field", id, ty, .str tyToks, .str vis, .list attrs, ilo, ihi, lo, hi, .str toks] => do
+      pure { ident := ← optStr? id, ty := fieldTy ty, tyToks, vis, attrs := ← attrs.mapM attrOf?,
+             identSpan := mkSpan? ilo ihi, span := ← mkSpan? lo hi, toks }
   | _ => none
 
 def variantOf? : Sexp → Option (VariantD × Span)
   | .list [.atom "variant", .str id, st, .list fields, .list attrs, disc, ilo, ihi, lo, hi] => do
       pure ({ ident := id, style := ← styleOf? st, fields := ← fields.mapM fieldOf?, attrs := ← attrs.mapM attrOf?,
               discriminant := ← optStr? disc, span := ← mkSpan? lo hi }, ← mkSpan? ilo ihi)
+  | .list [.atom "variant", .str id, st, .list fields, .list attrs, disc, ilo, ihi, lo, hi, .str toks] => do
+      pure ({ ident := id, style := ← styleOf? st, fields := ← fields.mapM fieldOf?, attrs := ← attrs.mapM attrOf?,
+              discriminant := ← optStr? disc, span := ← mkSpan? lo hi, toks }, ← mkSpan? ilo ihi)
   | _ => none
 
 def bodyOf? : Sexp → Option (BodyD × List (String × Span))
